@@ -59,7 +59,7 @@ Definition positive : pred := {| p_lo := Some (true, BInt 0); p_hi := None |}.
 Definition non_negative : pred := {| p_lo := Some (false, BInt 0); p_hi := None |}.
 
 (* the value a bound expression denotes for a check over type ty *)
-Definition bound (n : Z) (ty : vtype) (b : bexpr) : Q := coerce ty (eval_bexpr n b).
+Definition bound (n : env) (ty : vtype) (b : bexpr) : Q := coerce ty (eval_bexpr n b).
 
 (* ------------------------------------------------------------------ 2. the documented table *)
 (* cells of the property statement *)
@@ -87,6 +87,19 @@ Definition cell_fa_epsilon : check :=            (* FA epsilon >= 0 *)
   {| c_kw := kw_fa_epsilon; c_ty := TScalar; c_pred := non_negative |}.
 Definition cell_squishing : check :=             (* squishing rate in [0, 1) *)
   {| c_kw := kw_squishing_rate; c_ty := TScalar; c_pred := in_range (BReal 0) (BReal 1) |}.
+
+(* ranges added by repairs F21 / F12 (now part of the documented ranges) *)
+Definition cell_td_features : check :=           (* target_dimension in [1, feature dimension] *)
+  {| c_kw := kw_target_dimension; c_ty := TIndex; c_pred := in_closed_range (BInt 1) BDim |}.
+Definition cell_td_neighbors : check :=          (* target_dimension in [1, num_neighbors] *)
+  {| c_kw := kw_target_dimension; c_ty := TIndex;
+     c_pred := in_closed_range (BInt 1) (BParam kw_num_neighbors TIndex) |}.
+Definition cell_td_landmarks : check :=          (* target_dimension in [1, int(N * landmark_ratio)] *)
+  {| c_kw := kw_target_dimension; c_ty := TIndex;
+     c_pred := in_closed_range (BInt 1) (BTrunc (BMul BN (BParam kw_landmark_ratio TScalar))) |}.
+Definition cell_td_two : check :=                (* Barnes-Hut t-SNE: target_dimension = 2 *)
+  {| c_kw := kw_target_dimension; c_ty := TIndex; c_pred := in_closed_range (BInt 2) (BInt 2) |}.
+Definition theta_positive : guard := GGt kw_sne_theta TScalar 0 true.
 
 (* documented defaults (doc comments of defines/keywords.hpp); doubles are written as the exact
    rational of the nearest double: 1e-9, 1e-3, 0.99 *)
@@ -150,7 +163,7 @@ Definition doc_rethrow : list (sw_exc * exc) :=
 Record doc_method := {
   dm_id : methid;
   dm_kernel : bool; dm_distance : bool; dm_features : bool;
-  dm_cells : list check;
+  dm_cells : list step;
   dm_pre : list step
 }.
 
@@ -158,55 +171,54 @@ Definition chk (c : check) : step := ([], BCheck c).
 Definition ev (cb : callback) : step := ([], BEval cb).
 (* a local method: its first statement is the neighbour search over the callback cb *)
 Definition local_on (cb : callback) : list step := [chk cell_num_neighbors; ev cb].
-Definition spe_is_local : guard :=
-  {| g_kw := kw_spe_global_strategy; g_val := VBool false; g_pos := true |}.
+Definition spe_is_local : guard := GIs kw_spe_global_strategy (VBool false) true.
 
 Definition doc_method_table : list doc_method :=
   [ {| dm_id := KLLE;   dm_kernel := true;  dm_distance := false; dm_features := false;
        dm_cells := []; dm_pre := local_on CbKernel |};
     {| dm_id := KLTSA;  dm_kernel := true;  dm_distance := false; dm_features := false;
-       dm_cells := []; dm_pre := local_on CbKernel |};
+       dm_cells := [chk cell_td_neighbors]; dm_pre := local_on CbKernel |};
     {| dm_id := DiffusionMap; dm_kernel := false; dm_distance := true; dm_features := false;
-       dm_cells := [cell_timesteps; cell_width]; dm_pre := [ev CbDistance] |};
+       dm_cells := [chk cell_timesteps; chk cell_width]; dm_pre := [ev CbDistance] |};
     {| dm_id := MDS;    dm_kernel := false; dm_distance := true;  dm_features := false;
        dm_cells := []; dm_pre := [ev CbDistance] |};
     {| dm_id := LandmarkMDS; dm_kernel := false; dm_distance := true; dm_features := false;
-       dm_cells := [cell_landmark_ratio]; dm_pre := [ev CbDistance] |};
+       dm_cells := [chk cell_landmark_ratio; chk cell_td_landmarks]; dm_pre := [ev CbDistance] |};
     {| dm_id := Isomap; dm_kernel := false; dm_distance := true;  dm_features := false;
        dm_cells := []; dm_pre := local_on CbDistance |};
     {| dm_id := LandmarkIsomap; dm_kernel := false; dm_distance := true; dm_features := false;
-       dm_cells := [cell_landmark_ratio]; dm_pre := local_on CbDistance |};
+       dm_cells := [chk cell_landmark_ratio; chk cell_td_landmarks]; dm_pre := local_on CbDistance |};
     {| dm_id := NPE;    dm_kernel := true;  dm_distance := false; dm_features := true;
-       dm_cells := []; dm_pre := local_on CbKernel |};
+       dm_cells := [chk cell_td_features]; dm_pre := local_on CbKernel |};
     {| dm_id := LLTSA;  dm_kernel := true;  dm_distance := false; dm_features := true;
-       dm_cells := []; dm_pre := local_on CbKernel |};
+       dm_cells := [chk cell_td_features; chk cell_td_neighbors]; dm_pre := local_on CbKernel |};
     {| dm_id := HLLE;   dm_kernel := true;  dm_distance := false; dm_features := false;
-       dm_cells := []; dm_pre := local_on CbKernel |};
+       dm_cells := [chk cell_td_neighbors]; dm_pre := local_on CbKernel |};
     {| dm_id := LaplacianEigenmaps; dm_kernel := false; dm_distance := true; dm_features := false;
-       dm_cells := [cell_width]; dm_pre := local_on CbDistance |};
+       dm_cells := [chk cell_width]; dm_pre := local_on CbDistance |};
     {| dm_id := LPP;    dm_kernel := false; dm_distance := true;  dm_features := true;
-       dm_cells := [cell_width]; dm_pre := local_on CbDistance |};
+       dm_cells := [chk cell_td_features; chk cell_width]; dm_pre := local_on CbDistance |};
     {| dm_id := PCA;    dm_kernel := false; dm_distance := false; dm_features := true;
-       dm_cells := []; dm_pre := [ev CbFeatures] |};
+       dm_cells := [chk cell_td_features]; dm_pre := [ev CbFeatures] |};
     {| dm_id := KernelPCA; dm_kernel := true; dm_distance := false; dm_features := false;
        dm_cells := []; dm_pre := [ev CbKernel] |};
     {| dm_id := RandomProjection; dm_kernel := false; dm_distance := false; dm_features := true;
        dm_cells := []; dm_pre := [ev CbFeatures] |};
     (* SPE searches neighbours only with the local strategy *)
     {| dm_id := SPE;    dm_kernel := false; dm_distance := true;  dm_features := true;
-       dm_cells := [cell_spe_tolerance; cell_spe_updates];
+       dm_cells := [chk cell_spe_tolerance; chk cell_spe_updates];
        dm_pre := [([spe_is_local], BCheck cell_num_neighbors); ([spe_is_local], BEval CbDistance);
                   ev CbDistance] |};
     {| dm_id := PassThru; dm_kernel := false; dm_distance := false; dm_features := true;
        dm_cells := []; dm_pre := [ev CbFeatures] |};
     {| dm_id := FactorAnalysis; dm_kernel := false; dm_distance := false; dm_features := true;
-       dm_cells := [cell_fa_epsilon]; dm_pre := [ev CbFeatures] |};
+       dm_cells := [chk cell_fa_epsilon]; dm_pre := [ev CbFeatures] |};
     {| dm_id := tSNE;   dm_kernel := false; dm_distance := false; dm_features := true;
-       dm_cells := [cell_perplexity; cell_theta]; dm_pre := [ev CbFeatures] |};
+       dm_cells := [chk cell_perplexity; chk cell_theta; ([theta_positive], BCheck cell_td_two)]; dm_pre := [ev CbFeatures] |};
     (* Manifold Sculpting materialises the feature matrix, then searches neighbours with the
        distance callback (traits: distance and features since repair F13 of property C13) *)
     {| dm_id := ManifoldSculpting; dm_kernel := false; dm_distance := true; dm_features := true;
-       dm_cells := [cell_squishing];
+       dm_cells := [chk cell_td_features; chk cell_squishing];
        dm_pre := [ev CbFeatures; chk cell_num_neighbors; ev CbDistance] |} ].
 
 Definition doc_method_info (d : doc_method) : method_info :=
@@ -214,7 +226,7 @@ Definition doc_method_info (d : doc_method) : method_info :=
      m_needs_kernel := dm_kernel d; m_needs_distance := dm_distance d;
      m_needs_features := dm_features d;
      m_handled := true;
-     m_validate := map chk (dm_cells d);
+     m_validate := dm_cells d;
      m_embed := dm_pre d |}.
 
 Definition doc_kwtypes : list (kwid * vtype) :=
@@ -380,17 +392,17 @@ Definition exc_of (c : clause) : exc :=
   | CNeeds _ | CUses _ _ => Unsupported
   end.
 
-Definition spec_guard (r : request) (g : guard) : bool :=
-  match effective r (g_kw g) with
-  | Some v => Bool.eqb (value_is v (g_val g)) (g_pos g)
-  | None => false
-  end.
+Definition spec_guard (r : request) (g : guard) : bool := guard_on (effective r) g.
+
+(* what the bound expressions of request r refer to *)
+Definition spec_env (r : request) : env :=
+  {| e_n := rq_n r; e_dim := cur_dim r; e_get := effective r |}.
 
 Definition out_of_range (r : request) (c : check) : bool :=
   match effective r (c_kw c) with
   | Some v =>
       match value_Q v with
-      | Some x => negb (pred_holds (rq_n r) (c_ty c) (c_pred c) x)
+      | Some x => negb (pred_holds (spec_env r) (c_ty c) (c_pred c) x)
       | None => true
       end
   | None => true
